@@ -86,7 +86,7 @@ static void canon_iter (DBusMessageIter *it, OutBuf *o)
             DBusMessageIter sub; char *sig;
             dbus_message_iter_recurse (it, &sub);
             sig = dbus_message_iter_get_signature (&sub);
-            ob_printf (o, "v:%s=", sig ? sig : "?");
+            ob_printf (o, "v:%s=", sig ? sig : "=OOM");
             dbus_free (sig);
             canon_iter (&sub, o);
             break;
@@ -96,7 +96,7 @@ static void canon_iter (DBusMessageIter *it, OutBuf *o)
             DBusMessageIter sub; char *sig; int et;
             dbus_message_iter_recurse (it, &sub);
             sig = dbus_message_iter_get_signature (&sub);
-            ob_printf (o, "a%s[", sig ? sig : "?");
+            ob_printf (o, "a%s[", sig ? sig : "=OOM");
             dbus_free (sig);
             et = dbus_message_iter_get_element_type (it);
             if (dbus_type_is_fixed (et) && et != DBUS_TYPE_UNIX_FD)
@@ -635,6 +635,7 @@ static void cmd_build (int argc, char **argv)
       marshal_hex (copy, &out);
       dbus_message_unref (copy);
     }
+  else ob_puts (&out, " copy=OOM");      /* dbus_message_copy reported failure (only ever under OOMBUILD's injected failures) */
   /* what the accessors say about the finished message (must agree with the bytes) */
   ob_puts (&out, " acc=");
   canon_msg (m, &out);
@@ -825,7 +826,9 @@ static void cmd_valenum (int argc, char **argv)
 
 static void fa_arm (int k) { _dbus_set_fail_alloc_failures (1); _dbus_set_fail_alloc_counter (k); }
 /* returns 1 if the armed failure fired */
-static int fa_disarm (void) { int fired = _dbus_get_fail_alloc_counter () == _DBUS_INT_MAX; _dbus_set_fail_alloc_counter (_DBUS_INT_MAX); return fired; }
+/* libdbus resets the counter to _DBUS_INT_MAX when the failure is consumed and goes on decrementing it with every
+ * later allocation (error paths allocate too), so "fired" is "far above any index we arm", not equality */
+static int fa_disarm (void) { int fired = _dbus_get_fail_alloc_counter () > 1000000000; _dbus_set_fail_alloc_counter (_DBUS_INT_MAX); return fired; }
 
 static DBusMessage *load_msg (const unsigned char *buf, size_t n, DBusMessageLoader **lp)
 {
